@@ -55,6 +55,9 @@ def items(tier: str) -> List[Any]:
     out: List[Any] = [("struct", s) for s in structural(tier)]
     seen = set(s for _, s in out)
     g1 = [raw.space(4, 2), raw.programs(5, 2, raw.PLAIN_SMALL)] if tier == "quick" else [raw.space(5, 2), raw.programs(6, 2, raw.PLAIN_SMALL), raw.space(4, 2, multi=True)]
+    if tier == "quick":
+        # multi-way branches (incl. the same label named twice) in layouts of up to 4 lines
+        g1.append((s for n in (2, 3, 4) for s in raw.programs(n, 2, raw.PLAIN_SMALL, multi=True) if "switch" in s or "match" in s))
     for gen in g1:
         for s in gen:
             if s not in seen:
